@@ -105,6 +105,8 @@ type httpRec struct {
 	Advance   string     `json:"advance,omitempty"`
 	Phases    []phaseObs `json:"phases"`
 	Findings  []finding  `json:"findings,omitempty"`
+
+	NoCacheServed bool `json:"no_cache_response_served_without_validation,omitempty"`
 }
 
 const httpSlack = 2 * time.Second
@@ -164,7 +166,8 @@ func judgeHTTP(rec *httpRec) {
 			}
 			add(sig, "the repeated request did not reach the server although the first response had no positive freshness lifetime")
 		case ph.Phase == "r2" && f.NoCache:
-			add("httpcache-no-cache-served-without-validation", "a no-cache response was served from cache without validation")
+			// RFC 7234 5.2.2.2 forbids this, but the statement of C10 is about freshness lifetimes only: observation, no verdict
+			rec.NoCacheServed = true
 		case ph.Phase == "r3":
 			sig := "httpcache-served-after-freshness"
 			if setSig != "" {
@@ -256,6 +259,9 @@ func (e *env) runHTTP(rec *httpRec, c *ck.RecCache, run func(c *ck.RecCache) ck.
 	e.r.Count("cases:http_cache", 1)
 	if f.MustNot {
 		e.r.Count("http_cases_without_positive_freshness", 1)
+	}
+	if rec.NoCacheServed {
+		e.r.Count("http_no_cache_response_served_without_validation(not judged)", 1)
 	}
 	if nontrivial {
 		e.r.Count("nontrivial", 1)
